@@ -35,6 +35,24 @@ Enumerated (one *case* per item; families of cases are the top-level scenarios):
   root     root_path alphabet x loaders
   hdr      epoch lattice (every day of the chosen years at 00:00:00 and 23:59:59, every minute of one day,
            fractional seconds) x {include_date_header, include_server_header} x alt_svc_headers x protocol
+  hist     HISTORIES over two / three Config instances in one process, judged differentially: one instance exists before
+           the history (sentinel), A and A2 are its subjects, and after EVERY operation a fresh Config() is built; every
+           instance other than the operation's subject, and the fresh one, must observe what it observed before
+           (mc/x_c19_hist.deep_observe: every data attribute incl. the private backing fields _bind / _quic_addresses /
+           _log / ..., ssl_enabled, and response_headers for h11 / h2 / h3 under a frozen clock).  Operations:
+           set      every documented key: A.key = v0; A2 = from_mapping({key: v1}); A2.key = v0
+           sockets  A: {ssl off+bind, ssl+bind, ssl+insecure_bind, ssl+quic_bind} x shape {v4:0, [::1]:0, unix} x
+                    {alt_svc_headers explicit, none}, create_sockets() (real loopback TCP / UDP sockets, closed again); then
+                    A2: every combination again, create_sockets(), and create_sockets() once more; the alt-svc values of
+                    the subject itself: the explicit list, else one advertisement per QUIC socket IT created and nothing else
+           misc     response_headers, log (Logger creation), cert_reqs, set_statsd_logger_class, create_ssl_context,
+                    root_path, binds given as lists, from_object, from_toml
+           pickle   run() hands the Config to every spawned worker by pickle: after create_sockets() (every combination
+                    above) and after setting every key to every value, the pickled Config is loaded by a FRESH interpreter
+                    (subprocess) whose deep_observe() must equal the parent's
+           aioquic is not installed: for the duration of a hist case a stand-in aioquic.h3.connection (H3_ALPN = ["h3"]) is
+           registered in sys.modules (parent and child) and removed again; the Config class' data attributes and the
+           hypercorn loggers are put back after every case.
 
 Oracle clauses (expected values come from the documented tables / reference models in mc/x_c19c20_ref.py):
 
@@ -55,6 +73,11 @@ Oracle clauses (expected values come from the documented tables / reference mode
   fd-type-unchecked    fd:// of the wrong socket type silently accepted
   root-path            root_path not stripped of trailing slashes (or otherwise altered)
   response-headers     date not the RFC 7231 IMF-fixdate of the clock / server / alt-svc not as configured
+                       (key hist:alt-svc:...: a Config advertises a QUIC port it did not create / not the one it created)
+  instance-isolation   an operation on one Config changed what ANOTHER Config observes (key <operation>:<attribute>:
+                       fresh-instance - a Config() built afterwards differs from one built before; ...:other-instance - an
+                       instance that already existed changed; set:<key>:own-value-lost)
+  pickle-derived       the Config a spawned worker unpickles differs from the parent's (key <operation>:<attribute>)
 """
 from __future__ import annotations
 
@@ -78,7 +101,9 @@ from mc import x_c19c20_ref as ref
 ID = "C19"
 LEVEL = "exploration"
 TECHNIQUE = ("bounded exhaustive enumeration of the finite configuration space (keys x values x loaders, CLI flags "
-             "alone and in ordered pairs, -c argument forms x prefix-exercising file / module names x placement x present / missing "
+             "alone and in ordered pairs, histories over several Config instances with a differential 'every other instance and a "
+             "fresh instance observe what they observed before' oracle over all setters / create_sockets on real loopback sockets / "
+             "derived-value readers, pickle round trip into a fresh interpreter as for spawned workers, -c argument forms x prefix-exercising file / module names x placement x present / missing "
              "in scratch trees with decoy siblings, bind-string shapes, root paths, clock lattice x header switches) executed on "
              "the real Config / __main__.main / create_sockets / response_headers; oracle = documented tables and "
              "independent reference functions")
@@ -90,7 +115,11 @@ ASSUMPTIONS = [
     "the --help texts; clause cli-table-coverage checks them against the live parser",
     "values that a format cannot express are not loaded through it (None / classes / enums in TOML, non-integers on the CLI)",
     "binds use loopback addresses, ephemeral or probed-free ports, temp-dir unix sockets and dup()ed descriptors only; "
-    "[::] / 0.0.0.0 are not bound; the aioquic alt-svc branch of response_headers is not reachable (aioquic not installed)",
+    "[::] / 0.0.0.0 are not bound; aioquic is not installed: the alt-svc branch of response_headers that derives values from "
+    "the QUIC sockets is reached in the hist family only, through a stand-in aioquic.h3.connection module with H3_ALPN = ['h3']",
+    "hist: settings are supplied by assignment / loaders only (a caller mutating a list it read from a Config in place is not "
+    "modelled); the log of a Config is created on a default configuration only (stream handlers); a Config whose log was "
+    "created is not pickled; the interpreter that loads the pickles is a plain subprocess, not a multiprocessing child",
     "-c names: a word starting with file: / python: is never offered as a bare TOML path (it is by definition the other form); "
     "python files carry the .py extension the documentation shows; module names that an installed or already imported module "
     "owns are skipped (none on this installation); for a missing target any exception or non-zero exit is accepted as the "
@@ -102,13 +131,15 @@ ASSUMPTIONS = [
 BOUNDS_DOC = {
     "quick": "all 54 keys x 2 values x 12 loaders + ordered key pairs x 2 loaders; all 44 spellings alone x 3 value sets; 36x36 ordered canonical pairs; "
              "toml file key x flag; -c forms: 69 file + 74 toml names (68 for the bare relative word) x 4 placements, 60 module names x {module, module.attribute} x 3 sys.path "
-             "arrangements, each with the target present and missing (1852 cases, decoys at every suffix of the word); bind shapes alone + pairs; 2 years + 1 day of minutes of clock lattice",
+             "arrangements, each with the target present and missing (1852 cases, decoys at every suffix of the word); bind shapes alone + pairs; 2 years + 1 day of minutes of clock lattice; "
+             "hist: 54 keys x 3 operations, 9 misc operations, 4 bind kinds x 3 shapes x 2 alt-svc x (4 kinds x 2 shapes) two-instance socket histories "
+             "of 3 operations, 16 + 108 pickles into fresh interpreters",
     "thorough": "as quick plus key pairs x 7 loaders, all 36^3 canonical triples, all 44x44 ordered spelling pairs x 3 value sets x 2 argv styles, 3 config-file formats, "
                 "-c names additionally with every ordered pair of prefix characters as the first two characters (flat and as directory / "
                 "package name) and every ordered pair of the prefix words as directory/file resp. package.module (12340 cases), "
-                "clock lattice over every day 1970-2100",
+                "clock lattice over every day 1970-2100; hist second instance over all 3 shapes, 24 + 108 pickles",
 }
-BUDGET = {"quick": 90, "thorough": 1100}
+BUDGET = {"quick": 300, "thorough": 1100}
 
 APP = "c19mod:app"
 DERIVED = {"log", "cert_reqs", "ssl_enabled"}
@@ -1050,6 +1081,254 @@ def do_hdr(case: tuple) -> ExecResult:
 
 
 # ---------------------------------------------------------------------------------------------
+# part: hist  (histories over two / three Config instances in one process; the Config handed to a spawned worker)
+#
+# A setting, and everything derived from it (bind lists, QUIC addresses -> alt-svc, ssl_enabled, the logger), belongs to
+# the Config it was given to.  The differential oracle: after EVERY operation on one instance, every other live instance
+# (one created before the history, the earlier subjects of the history) and a freshly constructed Config() observe exactly
+# what they observed before (mc.x_c19_hist.deep_observe: all data attributes incl. the private backing fields, and
+# response_headers for the three protocols under a frozen clock).  run() pickles the Config for every spawned worker:
+# the observation of the pickled Config in a FRESH interpreter equals the observation in the parent.
+
+HIST_COMBOS = [(0, "bind"), (1, "bind"), (1, "insecure_bind"), (1, "quic_bind")]
+HIST_SHAPES = ["v4:0", "v6:0", "unix"]
+HIST_ALT = ['h3=":443"; ma=3600']
+HIST_MISC = ["headers", "log", "cert_reqs", "statsd", "ssl_context", "root_path", "binds-as-lists", "from_object", "from_toml"]
+
+
+class _Hist:
+    """Book-keeping of one history: live instances, their last observations, the violations found."""
+
+    def __init__(self) -> None:
+        from hypercorn.config import Config
+        from mc import x_c19_hist as xh
+
+        self.xh = xh
+        self.Config = Config
+        self.viol: List[dict] = []
+        self.pristine = xh.deep_observe(Config())
+        self.fresh = self.pristine
+        self.live: List[Tuple[str, Any, Dict[str, str]]] = []
+        self.add("sentinel", Config())
+        self.trace: List[Any] = []
+
+    def add(self, name: str, cfg: Any) -> Any:
+        self.live.append((name, cfg, self.xh.deep_observe(cfg)))
+        return cfg
+
+    def after(self, op: str, subject: Any) -> None:
+        """Call after every operation: `subject` is the instance the operation was applied to (it may change)."""
+        xh = self.xh
+        fresh = xh.deep_observe(self.Config())
+        for attr in xh.diff(self.fresh, fresh)[:4]:  # (each change is reported once, at the operation that caused it)
+            self.viol.append(V("instance-isolation", f"{op}:{attr}:fresh-instance",
+                               f"after {op} on another Config, Config().{attr} = {fresh.get(attr)} (before: {self.fresh.get(attr)})"))
+        self.fresh = fresh
+        for i, (name, cfg, before) in enumerate(self.live):
+            now = xh.deep_observe(cfg)
+            if cfg is not subject:
+                for attr in xh.diff(before, now)[:4]:
+                    self.viol.append(V("instance-isolation", f"{op}:{attr}:other-instance",
+                                       f"after {op} on another Config, {name}.{attr} = {now.get(attr)} (before: {before.get(attr)})"))
+            self.live[i] = (name, cfg, now)
+        self.trace.append((op, tuple(xh.diff(self.pristine, xh.deep_observe(subject)))))
+
+    def observed(self, cfg: Any) -> Dict[str, str]:
+        return next(o for _, c, o in self.live if c is cfg)
+
+
+@contextlib.contextmanager
+def _hist_world() -> Any:
+    """Stand-in aioquic, a temp dir, socket clean-up, and the Config class / logging state put back afterwards."""
+    import logging
+
+    from mc import x_c19_hist as xh
+
+    saved = xh.class_state()
+    handlers = {n: (list(logging.getLogger(n).handlers), logging.getLogger(n).propagate, logging.getLogger(n).level)
+                for n in ("hypercorn.access", "hypercorn.error")}
+    res = {"keep": [], "produced": [], "n": 0}
+    with xh.fake_aioquic(), tempfile.TemporaryDirectory(prefix="c19h_") as tmp, warnings.catch_warnings():
+        warnings.simplefilter("ignore")
+        res["tmp"] = tmp
+        try:
+            yield res
+        finally:
+            for sk in res["produced"] + res["keep"]:
+                with contextlib.suppress(OSError):
+                    sk.close()
+            xh.restore_class_state(saved)
+            for n, (hs, prop, lvl) in handlers.items():
+                lg = logging.getLogger(n)
+                for h in lg.handlers:
+                    if h not in hs:
+                        with contextlib.suppress(Exception):
+                            h.close()
+                lg.handlers, lg.propagate = hs, prop
+                lg.setLevel(lvl)
+
+
+def _hist_sockets(h: _Hist, res: dict, cfg: Any, ssl_on: int, which: str, shape: str, alt: int, op: str) -> None:
+    """Configure `cfg` and create its sockets (as run() does); judge the alt-svc values of cfg itself."""
+    type_ = socket.SOCK_DGRAM if which == "quic_bind" else socket.SOCK_STREAM
+    cfg.workers = 1
+    if ssl_on:
+        cfg.certfile, cfg.keyfile = "/c19/cert.pem", "/c19/key.pem"
+    if which != "bind":
+        cfg.bind = "127.0.0.1:0"
+    res["n"] += 1
+    b, _ = materialise(shape, type_, res["tmp"], res["n"], res["keep"])
+    setattr(cfg, which, b)
+    if alt:
+        cfg.alt_svc_headers = list(HIST_ALT)
+    try:
+        socks = cfg.create_sockets()
+    except Exception as e:
+        h.viol.append(V("bind-failed", f"hist:{which}:{shape}:{type(e).__name__}", repr(e)[:200]))
+        h.after(op, cfg)
+        return
+    made = socks.secure_sockets + socks.insecure_sockets + socks.quic_sockets
+    res["produced"] += made
+    ports = [sk.getsockname()[1] for sk in socks.quic_sockets if sk.family != socket.AF_UNIX]
+    h.after(op, cfg)
+    # the alt-svc values this Config asks for: the explicit list, else one advertisement per QUIC socket it created
+    for proto in PROTOCOLS:
+        hdrs = cfg.response_headers(proto)
+        alts = [v for n, v in hdrs if n.lower() == b"alt-svc"]
+        if alt:
+            ok = alts == [a.encode() for a in HIST_ALT]
+        else:
+            ok = all(any(b'":%d"' % p in a for a in alts) for p in ports) and \
+                all(any(b'":%d"' % p in a for p in ports) for a in alts)
+        if not ok:
+            h.viol.append(V("response-headers", f"hist:alt-svc:{which}:{shape}:{'explicit' if alt else 'derived'}",
+                            f"{proto}: alt-svc {alts}; explicit {HIST_ALT if alt else []}; QUIC ports of this Config {ports}"))
+            break
+
+
+def _hist_result(case: tuple, h: _Hist) -> ExecResult:
+    return _result(case, h.viol, ("hist", tuple(h.trace)), True, {"case": repr(case), "ops": stable_repr(h.trace)[:300]})
+
+
+def do_hist(case: tuple) -> ExecResult:
+    from hypercorn.config import Config
+    from mc import x_c19_hist as xh
+
+    kind = case[1]
+    with _hist_world() as res:
+        h = _Hist()
+        if kind == "set":
+            # ("hist", "set", key): A.key = v0 (attribute), A2 = from_mapping({key: v1}), A3 = from_mapping(key=v0) ...
+            key = case[2]
+            kd, values = ref.CONFIG_KEYS[key]
+            a = h.add("A", Config())
+            try:
+                setattr(a, key, copy.deepcopy(values[0]))
+                h.after(f"set:{key}", a)
+                a2 = Config.from_mapping({key: copy.deepcopy(values[-1])})
+                h.add("A2", a2)
+                h.after(f"from_mapping:{key}", a2)
+                setattr(a2, key, copy.deepcopy(values[0]))
+                h.after(f"set-again:{key}", a2)
+            except Exception as e:
+                h.viol.append(V("loader-effect", f"{key}:hist:raised:{type(e).__name__}", repr(e)))
+            want = ref.normalise_setting(kd, values[0])
+            if not _same(getattr(a, key, MISSING), want):
+                h.viol.append(V("instance-isolation", f"set:{key}:own-value-lost", f"A.{key}={stable_repr(getattr(a, key, MISSING))} wanted {stable_repr(want)}"))
+            return _hist_result(case, h)
+        if kind == "sockets":
+            # ("hist", "sockets", (ssl, which, shape, alt), (ssl, which, shape)): A creates sockets, A2 creates sockets, A2 again
+            (ssl_a, which_a, shape_a, alt_a), (ssl_b, which_b, shape_b) = case[2], case[3]
+            a = h.add("A", Config())
+            _hist_sockets(h, res, a, ssl_a, which_a, shape_a, alt_a, f"create_sockets:{which_a}")
+            a2 = h.add("A2", Config())
+            _hist_sockets(h, res, a2, ssl_b, which_b, shape_b, 0, f"create_sockets:{which_b}")
+            _hist_sockets(h, res, a2, ssl_b, which_b, shape_b, 0, f"create_sockets-again:{which_b}")
+            return _hist_result(case, h)
+        if kind == "misc":
+            op = case[2]
+            a = h.add("A", Config())
+            try:
+                if op == "headers":
+                    a.alt_svc_headers = list(HIST_ALT)
+                    a.include_server_header = False
+                    for p in PROTOCOLS:
+                        a.response_headers(p)
+                elif op == "log":
+                    a.loglevel = "DEBUG"
+                    a.log  # noqa: B018  (creates the Logger)
+                elif op == "cert_reqs":
+                    a.cert_reqs = 2
+                elif op == "statsd":
+                    a.statsd_host = "localhost:8125"
+                    a.set_statsd_logger_class(ref.AltLoggerA)
+                elif op == "ssl_context":
+                    assets = os.path.join(os.path.dirname(os.path.dirname(os.path.dirname(os.path.abspath(
+                        sys.modules["hypercorn"].__file__)))), "tests", "assets")
+                    if os.path.exists(os.path.join(assets, "cert.pem")):
+                        a.certfile, a.keyfile = os.path.join(assets, "cert.pem"), os.path.join(assets, "key.pem")
+                        a.alpn_protocols = ["h2"]
+                        a.create_ssl_context()
+                    else:
+                        a.certfile, a.keyfile = "/c19/cert.pem", "/c19/key.pem"
+                elif op == "root_path":
+                    a.root_path = "/a/b//"
+                elif op == "binds-as-lists":
+                    a.bind, a.insecure_bind, a.quic_bind = ["a:1", "b:2"], ["c:3"], ["d:4", "e:5"]
+                elif op == "from_object":
+                    h.add("A2", Config.from_object(type("S", (), {"bind": "x:1", "quic_bind": ["q:1"], "server_names": ["s"]})))
+                elif op == "from_toml":
+                    with config_files({"bind": ["x:1"], "alt_svc_headers": list(HIST_ALT), "root_path": "/r/"}) as p:
+                        h.add("A2", Config.from_toml(p["toml"]))
+            except Exception as e:
+                h.viol.append(V("loader-effect", f"hist:{op}:raised:{type(e).__name__}", repr(e)))
+            h.after(op, a)
+            return _hist_result(case, h)
+        if kind == "pickle-sockets":
+            # ("hist", "pickle-sockets", ssl, which, shape, alt): what the spawned worker gets after run() created the sockets
+            _, _, ssl_on, which, shape, alt = case
+            a = h.add("A", Config())
+            _hist_sockets(h, res, a, ssl_on, which, shape, alt, f"create_sockets:{which}")
+            _judge_pickles(h, [(f"create_sockets:{which}", a)])
+            return _hist_result(case, h)
+        if kind == "pickle-keys":
+            subjects = []
+            for key, (kd, values) in ref.CONFIG_KEYS.items():
+                for vi, v in enumerate(values):
+                    a = Config()
+                    setattr(a, key, copy.deepcopy(v))
+                    subjects.append((f"set:{key}", a))
+            _judge_pickles(h, subjects)
+            h.trace.append(("pickled", len(subjects)))
+            return _hist_result(case, h)
+    raise ValueError(case)
+
+
+def _judge_pickles(h: _Hist, subjects: List[Tuple[str, Any]]) -> None:
+    from mc import x_c19_hist as xh
+
+    blobs, kept = [], []
+    for what, cfg in subjects:
+        b = xh.try_pickle(cfg)
+        if b is None:
+            h.viol.append(V("pickle-derived", f"{what}:not-picklable", "pickle.dumps(config) raised"))
+            continue
+        blobs.append(b)
+        kept.append((what, cfg))
+    if not blobs:
+        return
+    seen = xh.observe_in_fresh_interpreter(blobs)
+    for (what, cfg), theirs in zip(kept, seen):
+        mine = xh.deep_observe(cfg)
+        if isinstance(theirs, str):
+            h.viol.append(V("pickle-derived", f"{what}:worker-cannot-load", theirs[:300]))
+            continue
+        for attr in xh.diff(mine, theirs)[:4]:
+            h.viol.append(V("pickle-derived", f"{what}:{attr}",
+                            f"spawned worker sees {attr} = {theirs.get(attr)}; the parent that created the Config sees {mine.get(attr)}"))
+
+
+# ---------------------------------------------------------------------------------------------
 # families
 
 
@@ -1086,6 +1365,9 @@ def scenarios(tier: str) -> List[Any]:
     fams += [("cfgname", form, pl) for form in CFG_FORMS for pl in CFG_PLACEMENTS[form]]
     fams += [("hdr", y) for y in _year_list(tier)]
     fams += [("hdr-minutes",), ("hdr-switches",)]
+    fams += [("hist-set",), ("hist-misc",), ("hist-pickle-keys",)]
+    fams += [("hist-sockets", ssl_on, which) for ssl_on, which in HIST_COMBOS]
+    fams += [("hist-pickle", ssl_on, which) for ssl_on, which in HIST_COMBOS]
     return fams
 
 
@@ -1137,6 +1419,21 @@ def cases(fam: tuple, tier: str) -> List[tuple]:
         epochs = [0, 951782400, 1709164800.75, 4107542399]
         return [("hdr", e, d, s, a, p) for e in epochs for d in (0, 1) for s in (0, 1) for a in range(len(ALT_SVC))
                 for p in PROTOCOLS]
+    if kind == "hist-set":
+        return [("hist", "set", key) for key in ref.CONFIG_KEYS]
+    if kind == "hist-misc":
+        return [("hist", "misc", op) for op in HIST_MISC]
+    if kind == "hist-pickle-keys":
+        return [("hist", "pickle-keys")]
+    if kind == "hist-sockets":
+        _, ssl_on, which = fam
+        shapes_b = HIST_SHAPES if tier != "quick" else HIST_SHAPES[:2]
+        return [("hist", "sockets", (ssl_on, which, sa, alt), (sb_ssl, sb_which, sb))
+                for sa in HIST_SHAPES for alt in (0, 1) for sb_ssl, sb_which in HIST_COMBOS for sb in shapes_b]
+    if kind == "hist-pickle":
+        _, ssl_on, which = fam
+        return [("hist", "pickle-sockets", ssl_on, which, shape, alt)
+                for shape in (HIST_SHAPES if tier != "quick" else HIST_SHAPES[:2]) for alt in (0, 1)]
     raise ValueError(fam)
 
 
@@ -1145,7 +1442,7 @@ def bounds(tier: str, params: Any) -> dict:
 
 
 _DISPATCH = {"load": do_load, "load2": do_load2, "cli": do_cli, "clifile": do_clifile, "cliopts": do_cliopts, "bind": do_bind,
-             "root": do_root, "hdr": do_hdr, "cfgname": do_cfgname}
+             "root": do_root, "hdr": do_hdr, "cfgname": do_cfgname, "hist": do_hist}
 
 
 def execute(params: Any, prefix: List[int]) -> ExecResult:
